@@ -156,6 +156,11 @@ def run_irregular(ck, res, n_cases, goals, n_interval, torch, r, dist):
         M = 4 + ci % 13 if ci >= 4 else 4 + ci % 2          # 4..16 control points; first cases 4 and 5 (generated terms)
         cx, cy = dy(r, -1, 1), dy(r, -1, 1)
         a, b = dy(r, 0.5, 2), dy(r, 0.5, 2)
+        far = ci % 6 == 4 and ci % 5 != 3 and ci % 4 != 1
+        if far:
+            # a domain far from the origin (UTM-like coordinates) evaluated on a batch of more than 25 rows: squared distances
+            # must be computed from coordinate differences, not from |a|^2 + |b|^2 - 2 a.b
+            cx, cy = cx + r.choice([1.0e4, 2.5e4]), cy + r.choice([-2.0e4, 1.5e4])
         if ci % 4 == 1 and ci % 5 != 3:      # (not combined with the close-neighbour cases: 1e-6 apart on a domain of
             # size 100 is a relative separation of 1e-8, below what the float64 kernel differences can resolve)
             # domains of very different absolute size (the spline kernel has an absolute offset: fit and evaluation must
@@ -207,12 +212,16 @@ def run_irregular(ck, res, n_cases, goals, n_interval, torch, r, dist):
         if len(kept) != M:
             ck.fail('custom/control-point-dropped', f'_clean_control_points kept {len(kept)} of {M} distinct control points', inp)
             continue
-        netp = Probe(2, r, nterms=2, kinds=('one', 'pow', 'sin'))
+        # (far from the origin a polynomial probe network is of size 1e13 and rounding of N itself dominates: bounded there)
+        netp = Probe(2, r, nterms=2, kinds=('one', 'sin') if far else ('one', 'pow', 'sin'))
         net = make_net([netp])
-        X = enga.col(torch, [p.loc[0] for p in kept]); Y = enga.col(torch, [p.loc[1] for p in kept])
+        extra = [(cx + 0.3 * a * (2 * r.random() - 1), cy + 0.3 * b * (2 * r.random() - 1)) for _ in range(30)] if far else []
+        X = enga.col(torch, [p.loc[0] for p in kept] + [e[0] for e in extra]); Y = enga.col(torch, [p.loc[1] for p in kept] + [e[1] for e in extra])
         u = [float(v) for v in cond.enforce(net, X, Y).detach().reshape(-1)]
         conds = [np.linalg.cond(W) for W, _, _ in captured]
         tol = 1e-9 * (1 + max(abs(v) for v in vals)) * max(1.0, max(conds) * 1e-6) * 100
+        if far:     # calibrated on the implementation: 2e-11 at |centre| = 1e4 whatever the condition number of the fit
+            tol = 1e-8 * (1 + max(abs(v) for v in vals))
         for i, p in enumerate(kept):
             if abs(u[i] - p.val) > tol:
                 ck.fail('custom/value-at-control-point', f'enforced value {u[i]!r} at control point {p.loc} differs from the prescribed {p.val!r} (tol {tol:.2e})',
